@@ -63,8 +63,15 @@ def gen_case(rng):
         rays.append([r * math.cos(a), r * math.sin(a)])
     rays[0] = [0.0, 0.0]
     rays[1] = [0.0, 1.0]
+    argform = None
+    if rng.random() < 0.25:
+        # whole-number pupil coordinates handed over as Python ints or integer arrays (generate_rays(0, 1, 0, 1, w))
+        rays = [[0, 0], [0, 1], [0, -1], [1, 0], [-1, 0]][:rng.randint(2, 5)]
+        argform = rng.choice(['int_array', 'py_int'])
     case = {'desc': d, 'Hy': rng.choice([0.0, 1.0, -1.0, rng.uniform(-1, 1)]), 'rays': rays,
             'wi': rng.randint(0, 2)}
+    if argform:
+        case['argform'] = argform
     if finite and rng.random() < 0.3:
         # the object distance (and sometimes an inner gap) is changed through the public setter before the launch
         post = [['set_thickness', dyadic(rng, 30, 400, 3), 0]]
@@ -76,15 +83,39 @@ def gen_case(rng):
     return case
 
 
-def impl_generate(optic, Hy, px, py, w):
+def _cat(parts):
+    return {f: np.concatenate([np.atleast_1d(p[f]) for p in parts]) for f in parts[0]}
+
+
+def impl_generate(optic, Hy, px, py, w, argform=None):
+    if argform == 'py_int':
+        # one call per ray, every pupil coordinate a Python int
+        parts = [impl_generate(optic, Hy, int(a), int(b), w, 'scalar') for a, b in zip(px, py)]
+        bad = [p for p in parts if isinstance(p, tuple)]
+        return bad[0] if bad else _cat(parts)
     try:
-        r = optic.ray_generator.generate_rays(0.0, float(Hy), px.copy(), py.copy(), w)
+        if argform == 'scalar':
+            r = optic.ray_generator.generate_rays(0.0, float(Hy), px, py, w)
+        else:
+            r = optic.ray_generator.generate_rays(0.0, float(Hy), px.copy(), py.copy(), w)
         return {f: np.atleast_1d(getattr(r, f)).astype(float) for f in ('x', 'y', 'z', 'L', 'M', 'N', 'i', 'opd', 'w')}
     except Exception as e:  # noqa
         return ('error', type(e).__name__)
 
 
-def impl_generic(optic, Hy, px, py, w):
+def impl_generic(optic, Hy, px, py, w, argform=None):
+    if argform == 'py_int':
+        parts = [impl_generic(optic, Hy, int(a), int(b), w, 'scalar') for a, b in zip(px, py)]
+        bad = [p for p in parts if isinstance(p, tuple)]
+        return bad[0] if bad else _cat(parts)
+    if argform == 'scalar':
+        try:
+            optic.trace_generic(0.0, float(Hy), px, py, w)
+            s0 = optic.surface_group.surfaces[0]
+            return {'x': s0.x.copy(), 'y': s0.y.copy(), 'z': s0.z.copy(), 'L': s0.L.copy(), 'M': s0.M.copy(),
+                    'N': s0.N.copy(), 'i': s0.intensity.copy(), 'opd': s0.opd.copy()}
+        except Exception as e:  # noqa
+            return ('error', type(e).__name__)
     try:
         optic.trace_generic(0.0, float(Hy), px.copy(), py.copy(), w)
         s0 = optic.surface_group.surfaces[0]
@@ -312,8 +343,12 @@ def work(ctx, cases):
         w = wl[case['wi'] % len(wl)]
         px = np.array([p[0] for p in case['rays']])
         py = np.array([p[1] for p in case['rays']])
-        gen = impl_generate(optic, case['Hy'], px, py, w)
-        gnr = impl_generic(optic, case['Hy'], px, py, w)
+        af = case.get('argform')
+        if af:
+            px, py = px.astype(np.int64), py.astype(np.int64)
+            ctx.count('pupil coordinates as ' + af)
+        gen = impl_generate(optic, case['Hy'], px, py, w, 'py_int' if af == 'py_int' else None)
+        gnr = impl_generic(optic, case['Hy'], px, py, w, 'py_int' if af == 'py_int' else None)
         try:
             sys_t = rg_tokens(optic)
         except Exception as e:  # noqa
